@@ -1247,3 +1247,184 @@ func storeSiteName(ins *ssa.Store) string {
 	}
 	return "store:" + shortTypeName(shortType(st)) + "." + recFieldName(st, fa.Field)
 }
+
+// sharedWritten: al is captured by a closure made in this function that stores into it (itself or through a nested
+// closure) AND that closure value goes somewhere other than an immediate call / defer in this function (it is passed
+// to a call, stored, returned, started with go): its writes happen at times this function does not control.
+// sharedWrittenAt: some escaping closure that writes al may already have been made when ins executes (the
+// instruction is reachable in the control-flow graph from the point where the closure is made).
+func (vc *VC) sharedWrittenAt(al *ssa.Alloc, ins ssa.Instruction) bool {
+	mcs := vc.sharedWritten(al)
+	for _, mc := range mcs {
+		// a closure that is only ever passed as an argument to ordinary calls is a callback: it runs during those
+		// calls. One that is started as a goroutine (go statement, a callee declared "spawns"), stored or returned
+		// may run at any later time.
+		callbackOnly := true
+		handedTo := map[ssa.Instruction]bool{}
+		if mrefs := mc.Referrers(); mrefs != nil {
+			for _, u := range *mrefs {
+				switch x := u.(type) {
+				case *ssa.DebugRef:
+				case *ssa.Call:
+					if x.Call.Value == ssa.Value(mc) {
+						continue
+					}
+					name, _ := vc.calleeName(x.Common())
+					if fc := vc.C.Funcs[name]; fc != nil && fc.Spawns {
+						callbackOnly = false
+					}
+					handedTo[x] = true
+				case *ssa.Defer:
+					if x.Call.Value != ssa.Value(mc) {
+						callbackOnly = false
+					}
+				default:
+					callbackOnly = false
+				}
+			}
+		}
+		if callbackOnly {
+			if handedTo[ins] {
+				return true
+			}
+			continue
+		}
+		mb, ib := mc.Block(), ins.Block()
+		if mb == ib {
+			after := false
+			for _, x := range mb.Instrs {
+				if x == ssa.Instruction(mc) {
+					after = true
+				}
+				if x == ins && after {
+					return true
+				}
+			}
+		}
+		seen := map[*ssa.BasicBlock]bool{}
+		stack := append([]*ssa.BasicBlock{}, mb.Succs...)
+		for len(stack) > 0 {
+			b := stack[len(stack)-1]
+			stack = stack[:len(stack)-1]
+			if seen[b] {
+				continue
+			}
+			seen[b] = true
+			if b == ib {
+				return true
+			}
+			stack = append(stack, b.Succs...)
+		}
+	}
+	return false
+}
+
+func (vc *VC) sharedWritten(al *ssa.Alloc) []*ssa.MakeClosure {
+	if v, ok := vc.sharedMemo[al]; ok {
+		return v
+	}
+	if vc.sharedMemo == nil {
+		vc.sharedMemo = map[*ssa.Alloc][]*ssa.MakeClosure{}
+	}
+	var res []*ssa.MakeClosure
+	var writes func(fn *ssa.Function, fv *ssa.FreeVar, depth int) bool
+	writes = func(fn *ssa.Function, fv *ssa.FreeVar, depth int) bool {
+		if depth > 3 || fv.Referrers() == nil {
+			return false
+		}
+		for _, r := range *fv.Referrers() {
+			switch x := r.(type) {
+			case *ssa.Store:
+				if x.Addr == fv {
+					return true
+				}
+			case *ssa.MakeClosure:
+				inner := x.Fn.(*ssa.Function)
+				for i, b := range x.Bindings {
+					if b == ssa.Value(fv) && i < len(inner.FreeVars) && writes(inner, inner.FreeVars[i], depth+1) {
+						return true
+					}
+				}
+			}
+		}
+		return false
+	}
+	if refs := al.Referrers(); refs != nil {
+		for _, r := range *refs {
+			mc, ok := r.(*ssa.MakeClosure)
+			if !ok {
+				continue
+			}
+			fn := mc.Fn.(*ssa.Function)
+			if fn.Synthetic != "" {
+				continue // the body of a range-over-func loop: run by the iterator, inside the loop statement
+			}
+			w := false
+			for i, b := range mc.Bindings {
+				if b == ssa.Value(al) && i < len(fn.FreeVars) && writes(fn, fn.FreeVars[i], 0) {
+					w = true
+				}
+			}
+			if !w {
+				continue
+			}
+			// where does the closure value go?
+			escapes := false
+			if mrefs := mc.Referrers(); mrefs != nil {
+				for _, u := range *mrefs {
+					switch x := u.(type) {
+					case *ssa.DebugRef:
+					case *ssa.Call:
+						if x.Call.Value != ssa.Value(mc) {
+							escapes = true // an argument of a call
+						}
+					case *ssa.Defer:
+						if x.Call.Value != ssa.Value(mc) {
+							escapes = true
+						}
+					default:
+						escapes = true
+					}
+				}
+			}
+			if escapes {
+				res = append(res, mc)
+			}
+		}
+	}
+	vc.sharedMemo[al] = res
+	return res
+}
+
+// havocSharedLocals: at a call, every local that an escaping closure writes (see sharedWritten) and that may
+// already be shared at this point holds, afterwards, whatever that closure has stored by then: the call may have run
+// it (a callback), or it is a synchronisation point after which the writes of a goroutine are visible.
+func (vc *VC) havocSharedLocals(at ssa.Instruction) {
+	if vc.sharedAllocs == nil {
+		vc.sharedAllocs = []*ssa.Alloc{}
+		for _, b := range vc.fn.Blocks {
+			for _, ins := range b.Instrs {
+				if al, ok := ins.(*ssa.Alloc); ok && len(vc.sharedWritten(al)) > 0 {
+					vc.sharedAllocs = append(vc.sharedAllocs, al)
+				}
+			}
+		}
+	}
+	if at.Parent() != vc.fn {
+		return
+	}
+	for _, al := range vc.sharedAllocs {
+		r, defined := vc.vals[al]
+		if !defined || !vc.sharedWrittenAt(al, at) {
+			continue
+		}
+		t := deref(al.Type())
+		vc.st = vc.st.derive()
+		for _, k := range vc.zeroKeys(t) {
+			old := vc.st.prev.get(k)
+			fresh := vc.freshConst("shared", sortOfKey(vc.keyMeta(k)))
+			vc.st.set(k, vc.storeT(old, r, fresh))
+		}
+		vc.Abstract["a local written by an escaping closure is unknown after every call made while the closure may run"]++
+	}
+}
